@@ -500,3 +500,75 @@ def a_malformed_request_is_answered_with_a_bad_length_error_carrying_its_own_xid
     "the_request_is_skipped_what_follows_stays_buffered": lambda res: res[1] == nxt,
   })
 a_malformed_request_is_answered_with_a_bad_length_error_carrying_its_own_xid.bound = "one request with a body of 0..200 bytes, up to 3 bytes of the next one"
+
+
+# ---------------------------------------------------------------- a request with unsupported actions gets ONE error, and stops there
+# (sixth round, 2026-09-25: a seeded change went on with the rest of the action list after the bad-action error - a packet-out
+# with two unsupported actions was answered by two errors with the same xid, and the actions behind them were still applied)
+
+class _Act(object):
+  pass
+
+
+def _applied(sw, action, packet, in_port):
+  sw.applied.append(action)
+  return packet
+
+
+def _mk_bad_actions(shape):
+  """shape: a string over 'g' (supported action) and 'b' (unsupported type)"""
+  def u(b):
+    from pox.lib.packet.ethernet import ethernet
+    import types
+    ethernet()
+    sw = b.raw_new(SoftwareSwitchBase, log=logging.getLogger("verif"), applied=b.list([]))
+    good_type = 0
+    bad_types = [b.int("unsupported_type_%d" % i, 1, 0xfffe) for i in range(shape.count("b"))]
+    acts, j = [], 0
+    for c in shape:
+      if c == "g":
+        acts.append(b.raw_new(_Act, type=good_type))
+      else:
+        acts.append(b.raw_new(_Act, type=bad_types[j]))
+        j += 1
+    if b.mode == "sym":
+      from pyvc.values import BoundMethod
+      b.set(sw, "action_handlers", b.dict({good_type: BoundMethod(_applied, sw)}))
+      b.st.ghost["errors"] = ()
+      def ghost(I, st, f, args, kws):
+        st.ghost["errors"] = tuple(st.ghost["errors"]) + ((kws.get("type"), kws.get("code"), kws.get("ofp")),)
+      cs = {SW + "SoftwareSwitchBase.send_error": CallSpec("contract", ghost=ghost, envelope="one error message to the controller (send_error unit)")}
+      errs = lambda: list(G_err.get())
+    else:
+      sw.action_handlers = {good_type: types.MethodType(_applied, sw)}
+      sent = []
+      sw.send_error = lambda type, code, ofp=None, **kw: sent.append((type, code, ofp))
+      cs = {}
+      errs = lambda: list(sent)
+    req = b.raw_new(_Act, type="the request")
+    pkt = b.new(ethernet)
+    first_bad = shape.index("b") if "b" in shape else len(shape)
+    def run(sw):
+      sw._process_actions_for_packet(acts, pkt, 1, req)
+      return [a for a in sw.applied]
+    return Case(run, [sw], calls=cs, raises={}, ensures={
+      "exactly_one_bad_action_error_naming_the_request_if_any_action_is_unsupported":
+        lambda res: len(errs()) == (1 if "b" in shape else 0)
+        and all([e[0] == of.OFPET_BAD_ACTION and e[1] == of.OFPBAC_BAD_TYPE and e[2] is req for e in errs()]),
+      "the_actions_in_front_of_the_first_unsupported_one_are_applied_in_order_none_behind_it":
+        lambda res: len(res) == first_bad and all([res[i] is acts[i] for i in range(first_bad)]),
+    })
+  u.__name__ = "action_list_%s_one_error_and_stop" % shape
+  u.bound = "action lists of 1..4 actions"
+  unit(P, target=SW + "SoftwareSwitchBase._process_actions_for_packet")(u)
+
+
+class _GErr(object):
+  @native
+  def get(self, st):
+    return st.ghost.get("errors", ())
+
+
+G_err = _GErr()
+for _shape in ("g", "b", "bb", "gbg", "bgb", "ggbb"):
+  _mk_bad_actions(_shape)
